@@ -22,7 +22,6 @@ from ml_pipeline_engine.logs import logger_manager as logger
 from ml_pipeline_engine.logs import logger_manager_lock as lock_logger
 from ml_pipeline_engine.node import run_node
 from ml_pipeline_engine.node import run_node_default
-from ml_pipeline_engine.node.retrying import NodeRetryPolicy
 from ml_pipeline_engine.types import CaseResult
 from ml_pipeline_engine.types import DAGLike
 from ml_pipeline_engine.types import DAGRunManagerLike
@@ -386,7 +385,7 @@ class DAGRunConcurrentManager(DAGRunManagerLike):
             # The default value is not an attempt of the node: it is neither retried nor replaced by itself
             return run_node_default(node, **kwargs)
 
-        retry_policy = NodeRetryPolicy(node=node)
+        retry_policy = self.dag.retry_policy(node=node)
 
         n_attempts = 1
         while True:
